@@ -569,11 +569,15 @@ func genPuts(rng *vh.RNG, p int, seq *int64, n int, maxBatch int, malformed *boo
 }
 
 func genCase(rng *vh.RNG, big bool) (c Case, malformed bool) {
+	drain := false
 	// family weights (backlog cases are large: few of them)
 	w := rng.Intn(100)
 	switch {
 	case w < 2:
 		c.End = "close-backlog"
+	case w < 5:
+		c.End = "close-after"
+		drain = true // a deep backlog that is being drained while the producers go on putting
 	case w < 16:
 		c.End = "close-after"
 	case w < 34:
@@ -609,6 +613,50 @@ func genCase(rng *vh.RNG, big bool) (c Case, malformed bool) {
 	c.EndFirst = rng.Bool()
 	P := rng.Range(1, 3)
 	seqs := make([]int64, P+1)
+	if drain {
+		// more than the channel holds is put first (the pump fills the channel and parks on its send, holding the rest of
+		// the batch it took out of the ring), then the consumer starts and the producers go on with many small Puts while the
+		// backlog drains: whatever is put now must come out after everything the pump still holds
+		P = rng.Range(1, 2)
+		seqs = make([]int64, P+1)
+		c.Cons, c.ConsD, c.ConsSlow = "mid", rng.Range(500, 900), 0
+		if rng.Chance(1, 3) {
+			c.ConsSlow = rng.Range(2, 6)
+		}
+		c.Prods = make([][]PutPlan, P)
+		for p := 0; p < P; p++ {
+			left := rng.Range(1100, 1500) / P
+			for left > 0 {
+				k := rng.Range(100, 400)
+				if k > left {
+					k = left
+				}
+				pp := PutPlan{V: []int64{}}
+				for j := 0; j < k; j++ {
+					seqs[p+1]++
+					pp.V = append(pp.V, int64(p+1)*tagBase+seqs[p+1])
+				}
+				c.Prods[p] = append(c.Prods[p], pp)
+				left -= k
+			}
+			for i, n := 0, rng.Range(60, 200); i < n; i++ {
+				pp := PutPlan{V: []int64{}, D: []int{0, 0, -1, -1, 1, 3}[rng.Intn(6)]}
+				if i == 0 {
+					pp.D = rng.Range(900, 1300) // the pump has parked and the consumer has started by now
+				}
+				for j, k := 0, rng.Range(1, 2); j < k; j++ {
+					seqs[p+1]++
+					pp.V = append(pp.V, int64(p+1)*tagBase+seqs[p+1])
+				}
+				c.Prods[p] = append(c.Prods[p], pp)
+			}
+		}
+		c.Late = make([][]PutPlan, P)
+		for p := 0; p < P; p++ {
+			c.Late[p] = []PutPlan{}
+		}
+		return
+	}
 	switch c.End {
 	case "cancel-idle":
 		// nothing is put before the end; the pump is idle (parked) when the context is cancelled
